@@ -5,7 +5,7 @@ ID = "C13"
 LEVEL = "proof"
 FUNCTIONS = ["LimitOrderBook.acq_price", "LimitOrderBook.liq_price", "Trade.__init__", "Broker.holdings_values",
              "Broker.net_liquidation_value", "Broker.context", "Weights._to_nr_contracts", "NrContracts._to_weights",
-             "Rebalancing.make_trades", "Broker.transact", "Broker.rebalance"]
+             "Rebalancing.make_trades", "Broker.transact", "Broker.rebalance", "Exchange.process_EventContractDiscontinued", "Exchange.process_EventNBBO", "LimitOrderBook.terminate"]
 REPLAYERS = [
     ("Trade.__init__::", replayers.trade_init),
 ("Rebalancing.make_trades::raises::ValueError::sound", replayers.make_trades_raises)]
